@@ -49,7 +49,10 @@ def translators(repo):
                            "run harness/translators/c01_pmodel.py")
     # (T): the public callables the current class defines + the dict mutators it fails to override
     import c01_api
-    return {"C01_Gen": c01_api.generate(repo)}
+    # (T): the bodies of 17 methods, regenerated from the ast of the current source as programs of
+    # Model/C01_SrcLang.v; Proofs/C01_SrcEq*.v prove each equal to the pointer-level model's method
+    import c01_src
+    return {"C01_Gen": c01_api.generate(repo), "C01_Src": c01_src.generate(repo)}
 
 
 # tokens -> pairwise unequal hashable python objects with eval()-able reprs; token 0 is None
